@@ -46,7 +46,7 @@ def run(chk):
                       'that a reallocation (or buffer_is_full) is forced at every individual reserve_space call. evaluations = executions '
                       '(history x mode x capacity) + reference runs; distinct = hash of the op list + object contents of each history',
                       min_distinct=100,
-                      required_counters=['histories', 'executions_no', 'executions_yes', 'executions_internal',
+                      required_counters=['histories', 'add_buffer_sources_with_uncommitted_tail', 'executions_no', 'executions_yes', 'executions_internal',
                                          'executions_callback_buffer', 'buffer_is_full_as_predicted', 'growth_events',
                                          'nested_buffers_drained', 'purge_ops', 'purge_moves_checked', 'purge_items_removed',
                                          'swap_ops', 'move_ops', 'clear_ops', 'add_buffer_ops', 'push_back_ops',
